@@ -134,5 +134,7 @@ def run(ctx: Ctx):
         if x["s"] in ("LinearDependence", "NotCoplanar", "incident", "on-quadric", "tangent", "cr/infinite", "cr/zero"):
             ctx.nontrivial(str(x["r"]))
     ctx.cov["traces_validated_against_impl"] += len(recs)
+    if ctx.tier == "thorough":      # a matrix commutes with join when hyperplanes move by the cofactor matrix: for all integers
+        ctx.lift_lemmas([("L_Cross", "Cofactor", True), ("L_Cross", "Falsified", False)])
     ctx.sample(recs[0]["r"])
     ctx.sample(recs[len(recs) // 2]["r"])
